@@ -197,6 +197,28 @@ def gen_design(rng, size=None, hazards=()):
                 fields[4] = [rng.choice("0123"), 0, "s"]
             s = info({"k": "latch", "fields": fields})
         stmts.append(s)
+    # ---- names reused across models: black-box ports named like nets / ports of the top model
+    if bits and rng.random() < 0.4:
+        netnames = []
+        for b in bits:
+            if b[0] not in netnames:
+                netnames.append(b[0])
+        for bb in bbs:
+            if rng.random() < 0.6:
+                ren = {}
+                pool = list(netnames)
+                rng.shuffle(pool)
+                for pl in (bb["ins"], bb["outs"]):
+                    for pt in pl:
+                        if pt[0] in ren:
+                            pt[0] = ren[pt[0]]
+                        elif pool and rng.random() < 0.7:
+                            ren[pt[0]] = pool.pop()
+                            pt[0] = ren[pt[0]]
+                for s in stmts:
+                    if s["k"] in ("subckt", "gate") and s["model"] == bb["name"]:
+                        for c in s["conns"]:
+                            c[0] = ren.get(c[0], c[0])
     # ---- hazards
     if "port-growth" not in hazards:
         _pad_formals(stmts, first_only=True)
